@@ -276,46 +276,34 @@ theorem bspan_hadamard (n m : Nat) (rx rz : Nat → Nat → Bool) (pos : List Na
 
 /-! ### `_position_finder` -/
 
-theorem posLoop_spec (x : Adj) (n fuel pr pc : Nat) (pos : List Nat)
-    (h1 : ∀ q, q ∈ pos → q ≤ pc ∧ q < n) (h2 : pos.Nodup) :
-    (∀ q, q ∈ posLoop x n fuel pr pc pos → q < n) ∧ (posLoop x n fuel pr pc pos).Nodup := by
-  induction fuel generalizing pr pc pos with
-  | zero => exact ⟨fun q hq => (h1 q hq).2, h2⟩
-  | succ fuel ih =>
-    unfold posLoop
-    by_cases hc : pr < n ∧ pc < n
-    · rw [if_pos hc]
-      by_cases hr : pr + 1 < n
-      · rw [if_pos hr]
-        simp only
-        generalize (if x (pr + 1) pc = true then pr + 1 else pr) = pr1
-        by_cases hb : pr1 + 1 < n ∧ pc + 1 < n
-        · rw [if_pos hb]
-          by_cases hx : x (pr1 + 1) (pc + 1) = true
-          · rw [if_pos hx]
-            apply ih
-            · intro q hq; have := h1 q hq; exact ⟨by omega, this.2⟩
-            · exact h2
-          · rw [if_neg hx]
-            apply ih
-            · intro q hq
-              rcases List.mem_append.mp hq with hq | hq
-              · have := h1 q hq; exact ⟨by omega, this.2⟩
-              · simp only [List.mem_singleton] at hq
-                subst hq; exact ⟨Nat.le_refl _, hb.2⟩
-            · rw [List.nodup_append]
-              refine ⟨h2, List.nodup_singleton _, ?_⟩
-              intro a ha b hb' e
-              simp only [List.mem_singleton] at hb'
-              have := h1 a ha
-              omega
-        · rw [if_neg hb]; exact ⟨fun q hq => (h1 q hq).2, h2⟩
-      · rw [if_neg hr]; exact ⟨fun q hq => (h1 q hq).2, h2⟩
-    · rw [if_neg hc]; exact ⟨fun q hq => (h1 q hq).2, h2⟩
+theorem posLoop_zero (x : Adj) (n : Nat) : posLoop x n 0 = (0, []) := rfl
+
+theorem posLoop_succ (x : Adj) (n k : Nat) : posLoop x n (k + 1) = posStep x n (posLoop x n k) k := by
+  simp [posLoop, List.range_succ, List.foldl_append]
+
+theorem posLoop_spec (x : Adj) (n k : Nat) :
+    (∀ q, q ∈ (posLoop x n k).2 → q < k) ∧ (posLoop x n k).2.Nodup := by
+  induction k with
+  | zero => rw [posLoop_zero]; exact ⟨fun q h => (by cases h), List.nodup_nil⟩
+  | succ k ih =>
+    rw [posLoop_succ]
+    unfold posStep
+    split
+    · exact ⟨fun q hq => Nat.lt_succ_of_lt (ih.1 q hq), ih.2⟩
+    · refine ⟨fun q hq => ?_, ?_⟩
+      · rcases List.mem_append.mp hq with hq | hq
+        · exact Nat.lt_succ_of_lt (ih.1 q hq)
+        · simp only [List.mem_singleton] at hq; omega
+      · rw [List.nodup_append]
+        refine ⟨ih.2, List.nodup_singleton _, ?_⟩
+        intro a ha b hb e
+        simp only [List.mem_singleton] at hb
+        have := ih.1 a ha
+        omega
 
 theorem positionFinder_spec (n : Nat) (x : Adj) :
     (∀ q, q ∈ positionFinder n x → q < n) ∧ (positionFinder n x).Nodup :=
-  posLoop_spec x n n 0 0 [] (fun _ h => by cases h) List.nodup_nil
+  posLoop_spec x n n
 
 /-! ### what a successful `_graph_finder` establishes -/
 
